@@ -1407,7 +1407,8 @@ mod convert {
                     continue;
                 }
                 if self.from_row.end_sequence() {
-                    return Ok(Some(ConvertLineRow::EndSequence(self.from_row.address())));
+                    let address_offset = self.convert_address_offset()?;
+                    return Ok(Some(ConvertLineRow::EndSequence(address_offset)));
                 }
                 if let Some(address) = self.address.take() {
                     self.state = ConvertLineState::ConvertRow;
@@ -1420,9 +1421,20 @@ mod convert {
             Ok(None)
         }
 
+        /// The writer can only advance the address by multiples of the minimum
+        /// instruction length.
+        fn convert_address_offset(&self) -> ConvertResult<u64> {
+            let address_offset = self.from_row.address();
+            let min_len = u64::from(self.program.line_encoding.minimum_instruction_length);
+            if min_len > 1 && address_offset % min_len != 0 {
+                return Err(ConvertError::UnsupportedLineInstruction);
+            }
+            Ok(address_offset)
+        }
+
         fn convert_row(&self) -> ConvertResult<LineRow> {
             Ok(LineRow {
-                address_offset: self.from_row.address(),
+                address_offset: self.convert_address_offset()?,
                 op_index: self.from_row.op_index(),
                 file: {
                     let file = self.from_row.file_index();
